@@ -181,24 +181,34 @@ func genGoBucket(r *Rng, cfg BucketCfg, protected bool, alg cose.Algorithm, have
 		add(2, labels)
 	}
 	if cfg.Invalid && r.Chance(1, 3) {
+		// plant a rule violation under label l, replacing whatever spelling of l is present: two spellings of one
+		// label with different values would make the reported error depend on Go's map iteration order
+		set := func(l int64, v any) {
+			for k := range m {
+				if n, ok := toI64(k); ok && n == l {
+					delete(m, k)
+				}
+			}
+			m[spellInt(r, l, cfg.Spell)] = v
+		}
 		switch r.Intn(8) {
 		case 0:
-			m[spellInt(r, 4, cfg.Spell)] = "kid-as-text"
+			set(4, "kid-as-text")
 		case 1:
-			m[spellInt(r, 5, cfg.Spell)] = r.Bytes(4)
-			m[spellInt(r, 6, cfg.Spell)] = r.Bytes(4)
+			set(5, r.Bytes(4))
+			set(6, r.Bytes(4))
 		case 2:
-			m[spellInt(r, 2, cfg.Spell)] = []any{int64(77)}
+			set(2, []any{int64(77)})
 		case 3:
-			m[spellInt(r, 3, cfg.Spell)] = " text/plain"
+			set(3, " text/plain")
 		case 4:
-			m[spellInt(r, 1, cfg.Spell)] = true
+			set(1, true)
 		case 5:
 			m[1.5] = int64(1)
 		case 6:
-			m[spellInt(r, 7, cfg.Spell)] = []byte{1}
+			set(7, []byte{1})
 		case 7:
-			m[spellInt(r, 9, cfg.Spell)] = int64(3)
+			set(9, int64(3))
 		}
 	}
 	return m
